@@ -8,6 +8,7 @@ import (
 	"sort"
 	"strings"
 	"sync"
+	"time"
 
 	"github.com/jackc/pgx/v5/pgtype"
 	wire "github.com/jeroenrinzema/psql-wire"
@@ -26,7 +27,7 @@ type c15 struct{ base }
 func init() {
 	core.Register(c15{base{id: "C15", race: true, level: "exploration", quickB: 16, thoroughB: 32,
 		rule:        "groups of 2-24 client sessions (different users; typed result tables in text and binary via simple and extended protocol; extended histories over the same statement/portal names; binary COPY-in; failing queries; oversized messages; on half of the groups a server-registered custom type; a type every connection registers on its own type map in a session middleware, whose codec stamps decoded COPY values with the connection's user; a quarter of the sessions run behind a middleware that detaches the context from the library's (whatever then fails must fail alone and together alike, and must not fall back to state shared with other connections); short-lived CancelRequest / SSLRequest / truncated-startup / empty connections before and during the sessions) (some steps prepare statements over a query text shared by all connections of the group, declared through wire.ParseParameters, with per-connection prespecified parameter types) are first served one at a time on a fresh server (solo reference; repeated in reverse order on another fresh server - the two solo runs must agree) and then all at once on another fresh server, 3 (quick) / 5 (thorough) times with different yield-injection seeds at every transport Read/Write; every connection's per-step reply bytes and callback trace must equal its solo run (ParameterStatus compared as a multiset); the binary runs under the Go race detector and any report with a library frame is a violation. Non-trivial = group whose global event order interleaves at least two connections; distinct = hash of the global (connection, event-kind) order observed.",
-		need:        []string{"per_connection_type_values", "groups", "concurrent_sessions", "steps_compared", "distinct_interleavings", "race_detector_active_batches", "custom_type_rows", "copy_sessions", "solo_order_comparisons"},
+		need:        []string{"per_connection_type_values", "groups", "concurrent_sessions", "steps_compared", "distinct_interleavings", "race_detector_active_batches", "custom_type_rows", "copy_sessions", "solo_order_comparisons", "resting_clients_compared_alone_and_among_busy_neighbours"},
 		assumptions: append([]string{"handler programs are deterministic functions of the query text, so a connection's solo transcript is the reference for its concurrent transcript"}, commonAssumptions...)}})
 }
 
@@ -543,6 +544,9 @@ func (ch c15) Run(c *core.Ctx) {
 	if c.Batch%4 == 0 && c.Begin(70000002) {
 		ch.authGroup(c)
 	}
+	if c.Batch%4 == 1 && c.Begin(70000003) {
+		ch.restGroup(c)
+	}
 	ngroups, reps := 640, 3
 	if c.Tier == "thorough" {
 		ngroups, reps = 20000, 5
@@ -872,5 +876,79 @@ func (ch c15) authGroup(c *core.Ctx) {
 				return
 			}
 		}
+	}
+}
+
+// restGroup: a server with every timeout this tree offers set to 25 ms (exported duration fields; none on the
+// pinned tree). A client runs a query, rests for several such periods, and runs another one - alone, and
+// while forty other connections of the same server are busy. Whether a resting client is kept or dropped is
+// the server's business; that it is the same thing with and without neighbours is this property. The rest is
+// real time, so a difference is reported only when three repetitions in a row all show it in the same direction.
+func (ch c15) restGroup(c *core.Ctx) {
+	prog := &hs.Prog{Stmts: []*hs.Stmt{{ID: "t", Cols: textCols(1), Ops: []hs.Op{{K: "row", Vals: []any{"v"}}, {K: "complete", Tag: "SELECT 1"}}}}}
+	mk := func() *hs.Sess { return &hs.Sess{Default: func(string) *hs.Prog { return prog }} }
+	hs.ShortTimeouts = true
+	env := hs.Start(hs.Parse)
+	hs.ShortTimeouts = false
+	defer env.Stop()
+	probe := func() string {
+		cl := hs.NewClient(env.Dial(mk()))
+		cl.C.Send(append(pg.Startup([][2]string{{"user", "rests"}}), pg.Query("t")...))
+		time.Sleep(120 * time.Millisecond)
+		first := replyKinds(cl.C.Out())
+		if i := strings.Index(first, "ZI"); i >= 0 {
+			first = first[i:] // (the start-up reply lists its parameters in map order)
+		}
+		state := "open"
+		if cl.C.Stats().Closed {
+			state = "closed by the server during the rest"
+		}
+		n := cl.C.OutLen()
+		cl.C.Send(pg.Query("t"))
+		cl.C.CloseWrite()
+		cl.C.WaitClosed()
+		return first + " | " + state + " | " + replyKinds(cl.C.OutFrom(n))
+	}
+	differs := 0
+	var solo, busy string
+	for rep := 0; rep < 3; rep++ {
+		solo = probe()
+		stop := make(chan struct{})
+		var wg sync.WaitGroup
+		for k := 0; k < 40; k++ {
+			wg.Add(1)
+			go func() {
+				defer wg.Done()
+				cl := hs.NewClient(env.Dial(mk()))
+				if err := cl.StartupOK("busy"); err != nil {
+					return
+				}
+				for {
+					select {
+					case <-stop:
+						cl.C.CloseWrite()
+						cl.C.WaitClosed()
+						return
+					default:
+					}
+					if _, closed := cl.Step(pg.Query("t")); closed || cl.Hung {
+						return
+					}
+				}
+			}()
+		}
+		time.Sleep(20 * time.Millisecond) // the neighbours are connected and busy
+		busy = probe()
+		close(stop)
+		wg.Wait()
+		c.Count("resting_clients_compared_alone_and_among_busy_neighbours", 1)
+		if busy == solo {
+			break
+		}
+		differs++
+	}
+	c.Eval("rest group", true)
+	if differs == 3 {
+		c.Violate("rest-differs", "a client that rests between two queries is treated differently when other connections of the server are busy", fmt.Sprintf("alone: %s; among 40 busy neighbours: %s (three repetitions in a row)", solo, busy), nil)
 	}
 }
